@@ -50,23 +50,23 @@ META = {
                 note="Openness is observed on the fake sockets (explicit close() calls), never through garbage collection."),
     "C12": dict(cat="model_checking", eng="E1 full tree over FakeNet + virtual tyme", ref="3 (C12)",
                 tech="complete enumeration of all client activity timings per tick (3^9 and 2^13/2^16; request trickling, response draining, body of an HTTP/1.1 close request trickling) against a statement-derived idle rule",
-                text="Real http.Server (plain and TLS; servant built by the server itself or handed in with a wire log) wound to a virtual Tymist; for every timing of client bytes relative to ticks the connection must be closed exactly at the first service at tyme >= last traffic + tymeout and never while traffic keeps arriving.",
+                text="Real http.Server (plain and TLS; servant built by the server itself or handed in with a wire log) wound to a virtual Tymist (also: wound only after the connection was accepted); for every timing of client bytes relative to ticks (request trickling, body of a 'Connection: close' / 'TE, close' request trickling, response draining) and every output timing of a streaming application that yields nothing or one byte per service pass, the connection must be closed exactly at the first service at tyme >= last traffic + tymeout and never while traffic keeps arriving.",
                 note="Traffic is stamped with the tyme of the service call that moved the bytes. Persistent connections are outside the property."),
     "C13": dict(cat="model_checking", eng="E3 differential", ref="3 (HTTP parsing group)",
                 tech="exhaustive enumeration of all <=2/3-cut partitions and byte-by-byte feeding of a message corpus; fragmented vs one-shot differential on the real parsers",
-                text="Every message of a bounded grammar (requests, responses, CL/chunked/close-delimited, CRLF/LF heads, 100-continue, pipelined pairs) is parsed one-shot and under every partition; all parser result fields must be identical.",
+                text="Every message of a bounded grammar (requests, responses, CL/chunked/close-delimited, CRLF/LF heads, 100-continue, pipelined pairs) is parsed one-shot and under every partition, also by a parser that was handed its (empty) receive buffer after construction; all parser result fields must be identical.",
                 note="Equal escaping exceptions count as equal (C16 judges escapes)."),
     "C15": dict(cat="model_checking", eng="E3 + reference parser", ref="3 (C15)",
                 tech="exhaustive enumeration of event streams x line-terminator assignments x fragmentations x framing, against a WHATWG reference parser",
-                text="Streams of 1-3 events from 16 shapes, every per-line CRLF/LF/CR assignment (single events) or near-uniform assignment, every <=2/3-cut partition and byte-wise, close-delimited and chunked (also the chunked wire cut at every position, framing included), and resumption on the same Respondent after a cut inside a line; events, last id and retry must equal the reference.",
+                text="Streams of 1-3 events from 20 shapes (incl. values that hold colons, with and without the space after the field's colon), every per-line CRLF/LF/CR assignment (single events) or near-uniform assignment, every <=2/3-cut partition and byte-wise, close-delimited and chunked (also the chunked wire cut at every position, framing included), and resumption on the same Respondent after a cut inside a line; events, last id and retry must equal the reference.",
                 note="Reference parser transcribed from the WHATWG algorithm (vf/ref/sse.py); streams end with a complete event; no BOM."),
     "C16": dict(cat="fault_enumeration", eng="E3 mutation enumeration over FakeNet", ref="3 (C16)",
                 tech="exhaustive enumeration of short byte strings, alphabet strings, all single mutations of a message corpus, targeted near-valid shapes, a request-target grammar with query shapes, a Content-Type grammar, an event-stream field grammar and two-message sequences on one connection against WSGI server, bare server and client",
-                text="service() of http.Server, BareServer and http.Client must never raise for any enumerated input; a sibling connection must still be answered.",
+                text="service() of http.Server, BareServer and http.Client must never raise for any enumerated input (near-valid messages, request-target, Content-Type and event-stream grammars, JSON bodies with an escaped lone surrogate, event streams with CR / CRLF line ends cut at every position); a sibling connection must still be answered.",
                 note="Key = (system, innermost hio call site, exception type). Name resolution is owned by the harness (only numeric hosts and localhost resolve)."),
     "C17": dict(cat="exploration", eng="E3", ref="3 (C17)",
                 tech="exhaustive enumeration of bodies x chunk compositions x extensions x trailers and of all chunk-size strings up to a length",
-                text="All bodies <= 4/6 bytes over 4 byte values in every chunk composition decode exactly through both parsers (one-shot, byte-wise, and the tail arriving together with the peer's close); every chunk-size string <= 3/4 chars over 15 characters, alone and followed by a chunk extension, is accepted iff it is plain hex, and anything else must be reported as an error (a parser that silently waits for more chunk data has accepted the size).",
+                text="All bodies <= 4/6 bytes over 4 byte values in every chunk composition decode exactly through both parsers (one-shot, byte-wise, the first chunk's data arriving in two reads, and the tail arriving together with the peer's close), with 4 extension forms and 4 trailer sets (incl. values holding colons); every chunk-size string <= 3/4 chars over 15 characters, alone and followed by a chunk extension, is accepted iff it is plain hex, and anything else must be reported as an error (a parser that silently waits for more chunk data has accepted the size).",
                 note="Whitespace-padded hex sizes are don't-care (RFC 7230 BWS)."),
     "C07": dict(cat="model_checking", eng="E1 over a fake clock", ref="3 (C07)",
                 tech="stateless deviation-bounded exploration of clock behaviour (consumed time, sleep overshoot, backward steps, stalls) around the real Doist.do() real-time loop",
@@ -74,20 +74,20 @@ META = {
                 note="Fake clock installed as module global `time` of hio.base.doing and hio.help.timing; forward jumps excluded as in the statement."),
     "C14": dict(cat="exploration", eng="E3 product enumeration", ref="3 (C14)",
                 tech="exhaustive product enumeration of request specifications through the real Requester/Client and Requestant/buildEnviron, compared with the specification via a reference urlencoded reader",
-                text="9 methods x 7 paths x query dicts over 10 hostile atoms x header sets (incl. an empty value) x 10 bodies (raw incl. all byte values, a latin-1 str, JSON, form) x explicit Content-Length: method, path, query arguments, headers and body bytes must be recovered; the same for the second request of a reused Requester after each of 3 earlier requests (form fields, JSON, raw body with headers and query).",
+                text="9 methods x 7 paths x query dicts over 10 hostile atoms x header sets (incl. an empty value) x 10 bodies (raw incl. all byte values, a latin-1 str, JSON, form) x explicit Content-Length: method, path, query arguments, headers and body bytes must be recovered; the same for the second request of a reused Requester after each of 3 earlier requests (form fields, JSON, raw body with headers and query), and for the same request built a second time by one Requester.",
                 note="GET carries no body by design; header values are legal field values; form fields compared as body bytes only."),
     "C18": dict(cat="model_checking", eng="E1 over FakeNet + stdlib parser", ref="3 (C18)",
                 tech="stateless deviation-bounded exploration of request sequences x WSGI app behaviours x partial sends; wire bytes judged by an independent HTTP parser",
-                text="1-3 requests per connection (HTTP/1.0/1.1, keep-alive/close, pipelined, sequential, or sequential in two segments each), scripted WSGI apps (status, Content-Length exact/absent/short incl. ending inside a later piece, empty pieces, start_response called twice); the received byte stream must parse into exactly the expected responses in order, each self-delimiting while the connection stays open, closed iff not persistent.",
+                text="1-3 requests per connection (HTTP/1.0/1.1, keep-alive / close / 'TE, close' / 'Close', pipelined, sequential, or sequential in two segments each), scripted WSGI apps (status, Content-Length exact/absent/short incl. ending inside a later piece, the app itself announcing chunked transfer, empty pieces, start_response called twice); the received byte stream must parse into exactly the expected responses in order, each self-delimiting while the connection stays open, closed iff not persistent.",
                 note="An unframed response to an HTTP/1.0 keep-alive request can only be delimited by closing (RFC 7230): expected as non-persistent."),
     "C19": dict(cat="model_checking", eng="E1 full tree over FakeNet", ref="3 (C19)",
                 tech="complete enumeration of scripted server behaviours per queued request (immediate, delayed, fragmented, redirecting, closing) against the real http.Client",
-                text="1-2/3 queued requests (each queued in one of 5 ways: qargs+body, raw dict, query inside the path, no query, HEAD), plain and TLS-flavoured client, reconnectable or not; every assignment of 8-9 server behaviours (incl. a redirect without Location and a 204 without a length) and 4 redirect codes; every request goes out with exactly its own method, query and body; a plainly answered request yields a plain entry whatever happened before; no request bytes while an earlier response is unfinished; at most one response entry per request in order with tag and redirect history; https->http refused without contacting the plain listener; exactly one entry per request when the connection stays usable.",
+                text="1-2/3 queued requests (each queued in one of 5 ways: qargs+body, raw dict, query inside the path, no query, HEAD), plain and TLS-flavoured client, reconnectable or not; every assignment of 11-12 server behaviours (incl. a redirect without Location, a 204 without a length, a bare 100 Continue first, an absolute Location without a port, a chain http -> https -> http) and 4 redirect codes; every request goes out with exactly its own method, query and body; a plainly answered request yields a plain entry whatever happened before; no request bytes while an earlier response is unfinished; at most one response entry per request in order with tag and redirect history; https->http refused without contacting the plain listener, also on the second hop of a chain; exactly one entry per request when the connection stays usable.",
                 note="Liveness is not demanded through a connection the server closed unless the client is reconnectable on its original connector."),
     "C20": dict(cat="model_checking", eng="E3 permutation enumeration", ref="3 (memo group)",
                 tech="exhaustive enumeration of gram sizes x header encodings x codes through the real Memoer.rend, and of every delivery permutation, duplicate insertion, strict subset and two-memo interleaving into the real receive side",
-                text="5 unicode memos x 4 zeroth-gram codes x base64/base2 headers x every gram size from the legal minimum to the first single-gram size, and requested sizes below the minimum (the setter must raise them to a size that works); for sizes giving <= 3 (quick) / 4 (thorough) grams: all permutations, all permutations with one duplicate at every position, all permutations of all strict subsets, all order-preserving merges with a second memo from another source and signer, also of every permutation of every incomplete subset of the first memo, and duplicate-carrying sequences followed or preceded by the second memo; the inbox must equal the multiset of complete memos with text, source and signer id.",
-                note="Recorded KNOWN-FINDINGs: rend fails for the smallest legal base2 gram sizes; a duplicate of an already delivered memo is delivered again; a signed gram ahead of its zeroth gram is dropped. Counter-based memo ids, fixed ed25519 seeds."),
+                text="5 unicode memos x 4 zeroth-gram codes x base64/base2 headers x every gram size from the legal minimum to the first single-gram size, and requested sizes below the minimum (the setter must raise them to a size that works), also for senders switched to the other header encoding after construction; for sizes giving <= 3 (quick) / 4 (thorough) grams: all permutations, all permutations with one duplicate at every position, all permutations of all strict subsets, all order-preserving merges with a second memo from another source and signer, also of every permutation of every incomplete subset of the first memo, and duplicate-carrying sequences followed or preceded by the second memo; the inbox must equal the multiset of complete memos with text, source and signer id.",
+                note="Recorded KNOWN-FINDINGs: rend fails for the smallest legal base2 gram sizes; a duplicate of an already delivered memo is delivered again; a signed gram ahead of its zeroth gram is dropped (when every gram arrives again after the zeroth the memo must be delivered). Counter-based memo ids, fixed ed25519 seeds."),
     "C21": dict(cat="fault_enumeration", eng="E1 full answer tree over scripted transport / fake datagram socket", ref="3 (memo group)",
                 tech="complete enumeration of the tree of transport answers (accept all / 0 / 1 / len-1 bytes, would-block, unreachable errnos) to the first 4/6 sends, real Memoer, udp and uxd PeerMemoer transmit servicing, per-destination ideal-sender oracle",
                 text="6 layouts of 2-3 grams to 1-2 destinations x {Memoer with scripted send, udp.PeerMemoer and uxd.PeerMemoer over a fake datagram socket} x {greedy service(), serviceAllOnce()} (also with one bytearray object queued for several destinations): every answer history of the first 4 (quick) / 6 (thorough) sends, then all-accepting sends to a horizon; every send must offer exactly the unsent rest of the oldest unfinished gram of its destination; at the horizon every gram was accepted in full or dropped by an unreachable answer and the buffers are empty. Plus each of the 10 unreachable errnos at each of the first 3 sends.",
